@@ -28,6 +28,10 @@ def layoutStep (toks : List String) : Option String :=
     let dims ← (if dims == "-" then some [] else (dims.splitOn ",").mapM String.toNat?)
     let g := match Gen.Nitf.clevel_mem fl with | .ok v => toString v | .error e => "err " ++ e
     pure (s!"{clevelRequired fl dims} {clevelForSize fl} {g}")
+  | ["mask", bb, present] => do
+    let bb ← bb.toNat?
+    let pr := present.toList.map (· == '1')
+    pure (s!"{maskTableLen pr.length} {maskedImageBytes bb pr} " ++ ",".intercalate ((maskOffsets bb 0 pr).map toString))
   | _ => none
 
 end Sarpy.Drivers
